@@ -219,6 +219,36 @@ impl<'a> Parser<'a> {
     }
 }
 
+#[cfg(feature = "verif-hooks")]
+#[allow(clippy::type_complexity)]
+pub(crate) fn verif_test_tokens(
+    input: &str,
+) -> Result<
+    (
+        Vec<(String, usize, usize)>,
+        usize,
+        Vec<(String, usize, usize)>,
+    ),
+    Vec<(usize, usize)>,
+> {
+    let mut header = HeaderParser::new(input);
+    let (signals, spans) = header
+        .parse()
+        .map_err(|err| err.at.iter().map(|s| (s.start, s.end)).collect::<Vec<_>>())?;
+    let names = signals
+        .iter()
+        .zip(&spans)
+        .map(|(n, s)| (n.clone(), s.start, s.end))
+        .collect();
+    let parser = Parser::from(header, &signals);
+    let line = parser.line;
+    let tokens = parser
+        .iter
+        .map(|tok| (format!("{:?}", tok.kind), tok.span.start, tok.span.end))
+        .collect();
+    Ok((names, line, tokens))
+}
+
 #[cfg(test)]
 mod test {
     use crate::{stmt::Stmt, ParsedTestCase};
